@@ -1,11 +1,14 @@
 #!/bin/bash
-# benigncheck.sh <dir-with-*.diff>: apply each behaviour-preserving patch to /repo, run all 20 checks, report alarms (= false alarms)
+# benigncheck.sh <dir-with-*.diff|*.patch>...: analyse /repo with each behaviour-preserving patch overlaid
+# (never modifies /repo), run all 20 checks, report alarms (= false alarms)
 for d in "$@"; do
-for f in $d/*.diff; do
-  git -C /repo apply "$f" 2>/dev/null || { echo "SKIP (does not apply) $f"; continue; }
-  out=$(/verif/bin/goatverif -repo /repo -verif /verif -prop all -no-evidence 2>&1)
+for f in $d/*.diff $d/*.silent.patch; do
+  [ -f "$f" ] || continue
+  t=$(mktemp -d /tmp/bc-XXXXXX)
+  python3 /verif/mkoverlay.py "$f" $t/ov 2>/dev/null || { echo "SKIP (does not apply) $f"; rm -rf $t; continue; }
+  out=$(TMPDIR=$t /verif/bin/goatverif -repo /repo -overlay $t/ov -verif /verif -prop all -no-evidence 2>&1)
   rc=$?
-  git -C /repo checkout -- .
+  rm -rf $t
   n=$(echo "$out" | grep -c "^VIOLATION")
   if [ $rc -ne 0 ] || [ $n -gt 0 ]; then echo "ALARM rc=$rc n=$n $f"; echo "$out" | grep "^VIOLATION\|INFRA" | cut -c1-260; else echo "silent $f"; fi
 done
